@@ -25,8 +25,14 @@
 (* matrix can lose less than 2 fine units; Outline carries that bound      *)
 (* (eps) and the judge adds it to the property's tolerance of 1/64 unit.   *)
 (* Outlines without any matrix are exact and are compared exactly.         *)
+(*                                                                         *)
+(* Style.  Loops over data of unbounded length (points, bytes, commands)   *)
+(* are written as FoldLeft(step, state0, seq): measured on this TLC build, *)
+(* accumulator-passing RECURSIVE operators cost O(depth) per call (a glyph *)
+(* of 1 100 points took 2 s to unpack), the Java-backed fold 3 us a step.  *)
+(* RECURSIVE is kept where the depth is small (components, nesting).       *)
 (***************************************************************************)
-EXTENDS Integers, Sequences, FiniteSets
+EXTENDS Integers, Sequences, FiniteSets, SequencesExt
 
 CONSTANT MaxDepth      \* deepest nesting level still visited (allsorts: 6, the root being level 0)
 
@@ -55,45 +61,50 @@ HAVE_INSTR == 256   SCALED_OFFSET == 2048   UNSCALED_OFFSET == 4096
 
 ---------------------------------------------------------------------------
 \* ---- the packed point stream ------------------------------------------------
-BadRead == [ok |-> FALSE, v |-> <<>>, next |-> 0]
-
-\* logical flags: one per point; a flag with REPEAT is followed by a count c and stands for c + 1 points
-RECURSIVE ReadFlags(_, _, _, _)
-ReadFlags(b, i, n, acc) ==
-  IF Len(acc) >= n THEN [ok |-> Len(acc) = n, v |-> acc, next |-> i]   \* a run overshooting n is malformed
-  ELSE IF ~Has(b, i, 1) THEN BadRead
-  ELSE LET f == b[i] IN
+\* logical flags, one per point: a flag byte with REPEAT is followed by a count c and stands for
+\* c + 1 points.  State: next byte position, the flag being repeated and how often still.
+FlagStep(b, st, k) ==
+  IF ~st.ok THEN st
+  ELSE IF st.rem > 0 THEN [st EXCEPT !.rem = @ - 1, !.v = Append(@, st.cur)]
+  ELSE IF ~Has(b, st.next, 1) THEN [st EXCEPT !.ok = FALSE]
+  ELSE LET f == b[st.next] IN
        IF Bit(f, REPEAT)
-       THEN IF ~Has(b, i + 1, 1) THEN BadRead
-            ELSE ReadFlags(b, i + 2, n, acc \o [k \in 1 .. (b[i + 1] + 1) |-> f])
-       ELSE ReadFlags(b, i + 1, n, Append(acc, f))
+       THEN IF ~Has(b, st.next + 1, 1) THEN [st EXCEPT !.ok = FALSE]
+            ELSE [ok |-> TRUE, next |-> st.next + 2, cur |-> f, rem |-> b[st.next + 1], v |-> Append(st.v, f)]
+       ELSE [ok |-> TRUE, next |-> st.next + 1, cur |-> f, rem |-> 0, v |-> Append(st.v, f)]
+
+\* a run that overshoots the n points is malformed (rem > 0 at the end)
+ReadFlags(b, i, n) ==
+  LET st == FoldLeft(LAMBDA acc, k : FlagStep(b, acc, k), [ok |-> TRUE, next |-> i, cur |-> 0, rem |-> 0, v |-> <<>>],
+                     [k \in 1 .. n |-> k])
+  IN [ok |-> st.ok /\ st.rem = 0, v |-> st.v, next |-> st.next]
 
 \* one coordinate axis: deltas resolved into absolute values.
 \*   SHORT set: one byte magnitude, sign given by the SAME/POSITIVE bit (set = positive)
 \*   SHORT clear, SAME set: delta 0, no bytes;  both clear: signed 16-bit delta
-RECURSIVE ReadCoords(_, _, _, _, _, _, _)
-ReadCoords(b, i, fl, k, short, same, acc) ==
-  IF k > Len(fl) THEN [ok |-> TRUE, v |-> acc, next |-> i]
-  ELSE LET f    == fl[k]
-           prev == IF k = 1 THEN 0 ELSE acc[k - 1]
-       IN IF Bit(f, short)
-          THEN IF ~Has(b, i, 1) THEN BadRead
-               ELSE ReadCoords(b, i + 1, fl, k + 1, short, same,
-                               Append(acc, prev + (IF Bit(f, same) THEN b[i] ELSE -b[i])))
-          ELSE IF Bit(f, same)
-          THEN ReadCoords(b, i, fl, k + 1, short, same, Append(acc, prev))
-          ELSE IF ~Has(b, i, 2) THEN BadRead
-               ELSE ReadCoords(b, i + 2, fl, k + 1, short, same, Append(acc, prev + I16(b, i)))
+CoordStep(b, short, same, st, f) ==
+  IF ~st.ok THEN st
+  ELSE IF Bit(f, short)
+  THEN IF ~Has(b, st.next, 1) THEN [st EXCEPT !.ok = FALSE]
+       ELSE LET v == st.prev + (IF Bit(f, same) THEN b[st.next] ELSE -b[st.next]) IN
+            [ok |-> TRUE, next |-> st.next + 1, prev |-> v, v |-> Append(st.v, v)]
+  ELSE IF Bit(f, same) THEN [st EXCEPT !.v = Append(@, st.prev)]
+  ELSE IF ~Has(b, st.next, 2) THEN [st EXCEPT !.ok = FALSE]
+       ELSE LET v == st.prev + I16(b, st.next) IN
+            [ok |-> TRUE, next |-> st.next + 2, prev |-> v, v |-> Append(st.v, v)]
+
+ReadCoords(b, i, fl, short, same) ==
+  FoldLeft(LAMBDA acc, f : CoordStep(b, short, same, acc, f), [ok |-> TRUE, next |-> i, prev |-> 0, v |-> <<>>], fl)
 
 InI16(v) == v >= -32768 /\ v <= 32767
 
 \* n points from the stream starting at byte i: <<[x, y, on]>> in font units
 Unpack(b, i, n) ==
-  LET F == ReadFlags(b, i, n, <<>>) IN
+  LET F == ReadFlags(b, i, n) IN
   IF ~F.ok THEN [ok |-> FALSE, pts |-> <<>>]
-  ELSE LET X == ReadCoords(b, F.next, F.v, 1, XSHORT, XSAME, <<>>) IN
+  ELSE LET X == ReadCoords(b, F.next, F.v, XSHORT, XSAME) IN
        IF ~X.ok THEN [ok |-> FALSE, pts |-> <<>>]
-       ELSE LET Y == ReadCoords(b, X.next, F.v, 1, YSHORT, YSAME, <<>>) IN
+       ELSE LET Y == ReadCoords(b, X.next, F.v, YSHORT, YSAME) IN
             IF ~Y.ok \/ \E k \in 1 .. n : ~InI16(X.v[k]) \/ ~InI16(Y.v[k])
             THEN [ok |-> FALSE, pts |-> <<>>]
             ELSE [ok |-> TRUE,
@@ -165,11 +176,10 @@ ParseGlyph(b) ==
 Nxt(c, i) == c[(i % Len(c)) + 1]
 Mid(p, q) == [x |-> (p.x + q.x) \div 2, y |-> (p.y + q.y) \div 2, on |-> TRUE]
 
-RECURSIVE ExpandFrom(_, _)
-ExpandFrom(c, i) ==
-  IF i > Len(c) THEN <<>>
-  ELSE (IF ~c[i].on /\ ~Nxt(c, i).on THEN <<c[i], Mid(c[i], Nxt(c, i))>> ELSE <<c[i]>>) \o ExpandFrom(c, i + 1)
-Expand(c) == ExpandFrom(c, 1)
+Expand(c) ==
+  FoldLeft(LAMBDA acc, i : IF ~c[i].on /\ ~Nxt(c, i).on THEN acc \o <<c[i], Mid(c[i], Nxt(c, i))>>
+                           ELSE Append(acc, c[i]),
+           <<>>, [i \in 1 .. Len(c) |-> i])
 
 \* drawing commands: <<op, cx, cy, x, y>>, op 1 move_to, 2 line_to, 3 quadratic_curve_to, 5 close
 \* (4 = cubic_curve_to never occurs for glyf)
@@ -181,20 +191,22 @@ Close        == <<5, 0, 0, 0, 0>>
 \* the points after the start, in cyclic order
 After(E, s) == [k \in 1 .. (Len(E) - 1) |-> E[((s + k - 1) % Len(E)) + 1]]
 
-\* pen is on the curve; R[k..] still to visit; an off-curve point takes the following on-curve
-\* point as its end, the start point if it is the last one
-RECURSIVE Segs(_, _, _)
-Segs(R, k, start) ==
-  IF k > Len(R) THEN <<>>
-  ELSE IF R[k].on THEN <<LineTo(R[k])>> \o Segs(R, k + 1, start)
-  ELSE IF k = Len(R) THEN <<QuadTo(R[k], start)>>
-  ELSE <<QuadTo(R[k], R[k + 1])>> \o Segs(R, k + 2, start)
+\* pen is on the curve; an off-curve point waits (ctl) for the following on-curve point as its end,
+\* and takes the start point if it is the last one
+NoPt == [x |-> 0, y |-> 0, on |-> TRUE]
+SegStep(st, p) ==
+  IF st.pending THEN [pending |-> FALSE, ctl |-> NoPt, out |-> Append(st.out, QuadTo(st.ctl, p))]
+  ELSE IF p.on THEN [st EXCEPT !.out = Append(@, LineTo(p))]
+  ELSE [st EXCEPT !.pending = TRUE, !.ctl = p]
+Segs(R, start) ==
+  LET st == FoldLeft(SegStep, [pending |-> FALSE, ctl |-> NoPt, out |-> <<>>], R) IN
+  IF st.pending THEN Append(st.out, QuadTo(st.ctl, start)) ELSE st.out
 
 \* the closed sub-path of an expanded contour started at its on-curve element s.
 \* explicitClose: the final straight edge back to the start is drawn before close (Dev_ExplicitClose)
 Path(E, s, explicitClose) ==
   LET R == After(E, s) IN
-  <<MoveTo(E[s])>> \o Segs(R, 1, E[s])
+  <<MoveTo(E[s])>> \o Segs(R, E[s])
      \o (IF explicitClose /\ Len(R) > 0 /\ R[Len(R)].on THEN <<LineTo(E[s])>> ELSE <<>>)
      \o <<Close>>
 
@@ -229,13 +241,9 @@ ApplyC(c, p, tr) ==
 ToFine(c) == [k \in 1 .. Len(c) |-> [x |-> c[k].x * FU, y |-> c[k].y * FU, on |-> c[k].on]]
 
 \* largest coordinate magnitude of a sequence of contours
-RECURSIVE MaxMag(_, _)
-MaxMag(cs, i) ==
-  IF i > Len(cs) THEN 0
-  ELSE LET S == {Abs(cs[i][k].x) : k \in 1 .. Len(cs[i])} \cup {Abs(cs[i][k].y) : k \in 1 .. Len(cs[i])} \cup {0}
-           m == CHOOSE v \in S : \A w \in S : w <= v
-           r == MaxMag(cs, i + 1)
-       IN IF m > r THEN m ELSE r
+Bigger(a, b) == IF a > b THEN a ELSE b
+MaxMag(cs) ==
+  FoldLeft(LAMBDA m, c : FoldLeft(LAMBDA mm, p : Bigger(mm, Bigger(Abs(p.x), Abs(p.y))), m, c), 0, cs)
 
 ---------------------------------------------------------------------------
 \* ---- outlines -------------------------------------------------------------------
@@ -276,7 +284,7 @@ CompLoop(glyphs, n, comps, k, depth, dev, acc) ==
        ELSE IF Bit(c.flags, SCALED_OFFSET) /\ ~Bit(c.flags, UNSCALED_OFFSET) /\ ~IsIdentity(c) THEN Res("unmodelled")
        ELSE LET child == Outline(glyphs, n, c.gid, depth + 1, dev) IN
             IF child.st # "ok" THEN Res(child.st)
-            ELSE IF ~IsIdentity(c) /\ MaxMag(child.cs, 1) > DomainMax THEN Res("domain")
+            ELSE IF ~IsIdentity(c) /\ MaxMag(child.cs) > DomainMax THEN Res("domain")
             ELSE LET childIsComposite == ParseGlyph(RecOf(glyphs, c.gid)).kind = "composite"
                      keep == dev.dropParent /\ childIsComposite     \* deviation: transform not applied
                      cs   == IF keep THEN child.cs
@@ -302,16 +310,16 @@ PathNear(W, G, tol) == Len(W) = Len(G) /\ \A k \in 1 .. Len(W) : NearCmd(W[k], G
 
 \* delivered commands cut into sub-paths: each from a move_to (op 1) to the next close (op 5).
 \* ok = FALSE if the command list is not a sequence of move_to ... close groups.
-NoPaths == [ok |-> FALSE, ps |-> <<>>]
-RECURSIVE SplitPaths(_, _, _, _)
-SplitPaths(cmds, k, cur, acc) ==
-  IF k > Len(cmds) THEN (IF cur = <<>> THEN [ok |-> TRUE, ps |-> acc] ELSE NoPaths)
-  ELSE LET c == cmds[k] IN
-       IF cur = <<>>
-       THEN IF c[1] = 1 THEN SplitPaths(cmds, k + 1, <<c>>, acc) ELSE NoPaths
-       ELSE IF c[1] = 1 THEN NoPaths
-       ELSE IF c[1] = 5 THEN SplitPaths(cmds, k + 1, <<>>, Append(acc, Append(cur, c)))
-       ELSE SplitPaths(cmds, k + 1, Append(cur, c), acc)
+SplitStep(st, c) ==
+  IF ~st.ok THEN st
+  ELSE IF st.cur = <<>>
+  THEN IF c[1] = 1 THEN [st EXCEPT !.cur = <<c>>] ELSE [st EXCEPT !.ok = FALSE]
+  ELSE IF c[1] = 1 THEN [st EXCEPT !.ok = FALSE]
+  ELSE IF c[1] = 5 THEN [ok |-> TRUE, cur |-> <<>>, ps |-> Append(st.ps, Append(st.cur, c))]
+  ELSE [st EXCEPT !.cur = Append(@, c)]
+SplitPaths(cmds) ==
+  LET st == FoldLeft(SplitStep, [ok |-> TRUE, cur |-> <<>>, ps |-> <<>>], cmds) IN
+  [ok |-> st.ok /\ st.cur = <<>>, ps |-> st.ps]
 
 \* a delivered sub-path traces contour c (fine units) iff it is one of its valid walks, within tol
 TracesContour(c, G, tol) ==
@@ -321,15 +329,14 @@ TracesContour(c, G, tol) ==
 
 \* the whole glyph: one sub-path per contour, in order
 TracesOutline(r, cmds) ==
-  LET P   == SplitPaths(cmds, 1, <<>>, <<>>)
+  LET P   == SplitPaths(cmds)
       tol == IF r.exact THEN 0 ELSE Tol + r.eps + 1
   IN /\ P.ok
      /\ Len(P.ps) = Len(r.cs)
      /\ \A k \in 1 .. Len(P.ps) : TracesContour(r.cs[k], P.ps[k], tol)
 
 \* the reference command list (what Walk delivers for every contour), for reports and samples
-RECURSIVE RefCommands(_, _)
-RefCommands(cs, k) == IF k > Len(cs) THEN <<>> ELSE Walk(cs[k]) \o RefCommands(cs, k + 1)
+RefCommands(cs) == FoldLeft(LAMBDA acc, c : acc \o Walk(c), <<>>, cs)
 
 ---------------------------------------------------------------------------
 \* ---- encoders (inverse of the parsers) -------------------------------------------
@@ -359,8 +366,7 @@ FlagBytes(fl, k, rep) ==
          [] rep = "split" -> IF r >= 3 THEN <<fl[k], fl[k] + REPEAT, r - 2>> \o FlagBytes(fl, k + r, rep)
                              ELSE <<fl[k]>> \o FlagBytes(fl, k + 1, rep)
 
-RECURSIVE Flatten(_, _)
-Flatten(ss, k) == IF k > Len(ss) THEN <<>> ELSE ss[k] \o Flatten(ss, k + 1)
+Flatten(ss, k) == FoldLeft(LAMBDA acc, q : acc \o q, <<>>, SubSeq(ss, k, Len(ss)))
 
 SetMin(S) == CHOOSE v \in S : \A w \in S : v <= w
 SetMax(S) == CHOOSE v \in S : \A w \in S : w <= v
